@@ -53,6 +53,10 @@ pub struct Entry {
 pub struct Scenario {
     pub api: String,
     pub mode: String,
+    #[serde(default)]
+    pub xf: String,
+    #[serde(default)]
+    pub algebra: Vec<[u32; 5]>,
     pub objs: Vec<AbsObj>,
     pub units: Vec<[u32; 5]>,
     pub path: Vec<Entry>,
@@ -349,6 +353,30 @@ impl<'a> Ctx<'a> {
                     self.mism("property", "final", c, 0, &e0, b, a);
                 }
             }
+            // C14: counts for every passed_objects(n), n = 0 .. total + 2, follow the count algebra
+            if sc.api == "diff" {
+                for (n, want) in sc.algebra.iter().enumerate() {
+                    let d = self.diff.clone().passed_objects(n as u32);
+                    let got = guarded(|| counts(&d.calculate(self.map)));
+                    self.oneshots += 1;
+                    let mut w = *want;
+                    let ok = match got {
+                        Ok(mut g) => {
+                            if sc.mode == "catch" {
+                                g[2] = 0;
+                                w[2] = 0;
+                            }
+                            g == w
+                        }
+                        Err(_) => false,
+                    };
+                    if !ok {
+                        let e = Entry { a: ("passed_objects".into(), n as u64), ..e0.clone() };
+                        let c = self.known.map_class(sc, "cnt");
+                        self.mism("property", "cnt", c, 0, &e, format!("{w:?}"), format!("{got:?}"));
+                    }
+                }
+            }
             // C14: any n above the total equals not limiting at all
             let a = self.one_shot(sc.total + 1);
             let b = self.one_shot(u32::MAX as u64);
@@ -440,6 +468,10 @@ fn run_scenario(sci: usize, sc: &Scenario, profiles: &[u32], cfg_list: &[(usize,
             continue;
         }
         for (ci, cfg) in cfg_list {
+            let mut cfg = cfg.clone();
+            if sc.xf == "HO" {
+                cfg.acronyms = Some("HO".into());
+            }
             let mut ctx = Ctx {
                 sc,
                 sci,
@@ -646,37 +678,58 @@ pub fn random_objs(rng: &mut StdRng, mode: &str, n: usize) -> Vec<AbsObj> {
         .collect()
 }
 
-/// Unit weights of a (converted) map under `diff`, measured on the one-shot path.
-fn measure_units(mode: &str, map: &Beatmap, diff: &Difficulty) -> Option<Vec<[u32; 5]>> {
-    let calc = |i: u32| guarded(|| counts(&diff.clone().passed_objects(i).calculate(map))).ok();
-    let full = guarded(|| counts(&diff.clone().calculate(map))).ok()?;
+/// Unit weights of a (converted) map under `diff`, measured on the one-shot path:
+/// unit i = counts(passed_objects(i)) - counts(passed_objects(i-1)), for i = 1.. until the
+/// one-shot result equals the unrestricted one. Taiko: per hit object (hit / not a hit).
+struct Measured {
+    units: Vec<[u32; 5]>,
+    zero: [u32; 5],
+    above_ok: bool,
+}
+
+fn measure_units(mode: &str, map: &Beatmap, diff: &Difficulty) -> Option<Measured> {
+    let calc = |i: u32| guarded(|| diff.clone().passed_objects(i).calculate(map)).ok();
+    let full = guarded(|| diff.clone().calculate(map)).ok()?;
+    let full_dbg = dbg_attrs(&full);
+    let zero = counts(&calc(0)?);
+    let mut units = Vec::new();
     if mode == "taiko" {
-        return Some(
-            map.hit_objects
-                .iter()
-                .map(|h| [u32::from(h.is_circle()), 0, 0, 0, 0])
-                .collect(),
-        );
-    }
-    let n = match mode {
-        "catch" => full[0] + full[1],
-        _ => map.hit_objects.len() as u32,
-    };
-    let mut prev = [0u32; 5];
-    let mut units = Vec::with_capacity(n as usize);
-    for i in 1..=n {
-        let c = calc(i)?;
-        let mut d = [0u32; 5];
-        for j in 0..5 {
-            d[j] = c[j].checked_sub(prev[j])?; // C14 monotone; a decrease ends the measurement
+        // passed_objects counts hits; objects are the map's hit objects (random seed mods are not used here)
+        units = map
+            .hit_objects
+            .iter()
+            .map(|h| [u32::from(h.is_circle()), 0, 0, 0, 0])
+            .collect();
+    } else {
+        let mut prev = zero;
+        let mut i = 0u32;
+        loop {
+            if i > 5000 {
+                return None;
+            }
+            let cur = calc(i)?;
+            if i > 0 {
+                let c = counts(&cur);
+                let mut d = [0u32; 5];
+                for j in 0..5 {
+                    d[j] = c[j].checked_sub(prev[j])?; // C14 monotone; a decrease ends the measurement
+                }
+                if d == [0; 5] {
+                    // nothing counted any more although the result still differs from the full one
+                    d = [9, 9, 9, 9, 9];
+                }
+                units.push(d);
+                prev = c;
+            }
+            if dbg_attrs(&cur) == full_dbg {
+                break;
+            }
+            i += 1;
         }
-        if mode == "mania" {
-            d[0] = 0;
-        }
-        units.push(d);
-        prev = c;
     }
-    Some(units)
+    let total = if mode == "taiko" { units.iter().map(|u| u[0]).sum::<u32>() } else { units.len() as u32 };
+    let above = calc(total + 1)?;
+    Some(Measured { units, zero, above_ok: dbg_attrs(&above) == full_dbg })
 }
 
 struct Rec {
@@ -686,7 +739,7 @@ struct Rec {
 
 fn record_sessions(rec: &mut Rec, rng: &mut StdRng, mode: &str, map: &Beatmap, cfg: &Cfg, label: &str) {
     let diff = cfg.difficulty();
-    let Some(units) = measure_units(mode, map, &diff) else {
+    let Some(Measured { units, zero, above_ok }) = measure_units(mode, map, &diff) else {
         rec.lines.push(json!({"ev": "reset", "api": "diff", "mode": mode, "units": [], "len": -7, "label": format!("{label}: one-shot counts not monotone or panicked")}).to_string());
         return;
     };
@@ -697,7 +750,7 @@ fn record_sessions(rec: &mut Rec, rng: &mut StdRng, mode: &str, map: &Beatmap, c
             Session::Perf(GradualPerformance::new(diff.clone(), map))
         };
         rec.sessions += 1;
-        rec.lines.push(json!({"ev": "reset", "api": api, "mode": mode, "units": units, "len": real_len(&s), "label": label}).to_string());
+        rec.lines.push(json!({"ev": "reset", "api": api, "mode": mode, "units": units, "len": real_len(&s), "zero": zero, "above_ok": above_ok, "label": label}).to_string());
         let state = score_state(rng.gen_range(0..3));
         let mut nones = 0;
         let mut guard = 0;
@@ -739,6 +792,21 @@ fn record_sessions(rec: &mut Rec, rng: &mut StdRng, mode: &str, map: &Beatmap, c
     }
 }
 
+/// mania: lazer-only mods that rewrite the object list (HoldOff, Invert), mirror and key mods
+fn mania_mods(rng: &mut StdRng, mode: &str, cfg: &Cfg) -> Cfg {
+    if mode != "mania" {
+        return cfg.clone();
+    }
+    match rng.gen_range(0..6) {
+        0 => cfg.with_acronyms("IN"),
+        1 => cfg.with_acronyms("HO"),
+        2 => cfg.with_acronyms("MR"),
+        3 => cfg.with_acronyms(["4K", "5K", "7K", "9K", "1K"][rng.gen_range(0..5)]),
+        4 => cfg.with_acronyms("IN,HO"),
+        _ => cfg.clone(),
+    }
+}
+
 /// `gradual-record <out.ndjson> --tier T`: fixtures (truncated), their conversions, seeded random maps.
 pub fn record_main(args: &[String]) -> i32 {
     let out_path = &args[0];
@@ -765,13 +833,23 @@ pub fn record_main(args: &[String]) -> i32 {
         let targets: Vec<&str> = if mode == "osu" { vec!["osu", "taiko", "catch", "mania"] } else { vec![mode] };
         for t in targets {
             let ci = rng.gen_range(0..all_cfgs.len());
-            let cfg = &all_cfgs[ci];
-            let conv = match map.clone().convert(mode_of(t), &cfg.mods.into()) {
+            let cfg = &mania_mods(&mut rng, t, &all_cfgs[ci]);
+            let conv = match map.clone().convert(mode_of(t), &cfg.game_mods()) {
                 Ok(m) => m,
                 Err(_) => continue,
             };
             maps_used += 1;
-            record_sessions(&mut rec, &mut rng, t, &conv, cfg, &format!("fixture {id} [{start}..{end}] as {t} cfg {ci}"));
+            record_sessions(&mut rec, &mut rng, t, &conv, cfg, &format!("fixture {id} [{start}..{end}] as {t} cfg {ci} {:?}", cfg.acronyms));
+            if t == "mania" {
+                // the mods that rewrite the mania object list are always covered
+                for a in ["IN", "HO", "IN,HO", "MR"] {
+                    let cfg = all_cfgs[0].with_acronyms(a);
+                    if let Ok(conv) = map.clone().convert(mode_of(t), &cfg.game_mods()) {
+                        maps_used += 1;
+                        record_sessions(&mut rec, &mut rng, t, &conv, &cfg, &format!("fixture {id} [{start}..{end}] as mania with {a}"));
+                    }
+                }
+            }
         }
     }
     for i in 0..n_random {
@@ -783,13 +861,15 @@ pub fn record_main(args: &[String]) -> i32 {
             let Ok(map) = Beatmap::from_bytes(text.as_bytes()) else { continue };
             let ci = rng.gen_range(0..all_cfgs.len());
             maps_used += 1;
-            record_sessions(&mut rec, &mut rng, mode, &map, &all_cfgs[ci], &format!("random {mode} #{i} n={n} profile {} cfg {ci}", prof.id));
+            let cfg = mania_mods(&mut rng, mode, &all_cfgs[ci]);
+            record_sessions(&mut rec, &mut rng, mode, &map, &cfg, &format!("random {mode} #{i} n={n} profile {} cfg {ci} {:?}", prof.id, cfg.acronyms));
             // osu maps also as converts
             if mode == "osu" && i % 2 == 0 {
                 for t in ["taiko", "catch", "mania"] {
-                    if let Ok(conv) = map.clone().convert(mode_of(t), &all_cfgs[ci].mods.into()) {
+                    let cfg = mania_mods(&mut rng, t, &all_cfgs[ci]);
+                    if let Ok(conv) = map.clone().convert(mode_of(t), &cfg.game_mods()) {
                         maps_used += 1;
-                        record_sessions(&mut rec, &mut rng, t, &conv, &all_cfgs[ci], &format!("random osu #{i} as {t}"));
+                        record_sessions(&mut rec, &mut rng, t, &conv, &cfg, &format!("random osu #{i} as {t} {:?}", cfg.acronyms));
                     }
                 }
             }
